@@ -9,6 +9,14 @@
    lengths not aligned with the window, all 65536 sample values present, sync column = sample counter);
    `_ind2save` is wrapped and every run is validated by spec/trace/NP2SplitTrace.tla together with projections of the
    files on disk (bytes of every shank file vs the original columns, reconstructed file and metadata vs the original).
+3. the same clauses on runs that use what the API offers and that do not start from a clean slate (`variants`, `run_variant`,
+   `reconstruct`): init_params(nsamples / extra / nshank), nwindow as float / NumPy integers / not given at all, windows barely
+   longer than the overlap (588, 600, 1152), the recording handed in as .cbin, paths as str, metadata with snsGeomMap and with
+   imDatPrb_type 2013, a probe recorded from one shank other than 0, NP2Converter(compress=True) (reconstruction from compressed
+   shank files, several compression chunks) and post_check=True (the constructor's defaults), NP2Reconstructor(compress=True),
+   a reconstructor object constructed before the conversion / used twice / used again after a failed attempt, shank folders
+   holding other files, split folders of a sibling probe next to them, longer leftovers of another recording under every output
+   name (fresh converter with overwrite, or one converter that first declines and is then forced).
 """
 import copy
 import json
@@ -24,11 +32,13 @@ C03_CLAUSES = ("InRange", "Cover", "Overlap", "Count", "APPrefix", "APComplete",
 C12_CLAUSES = ("LFTokens", "LFComplete", "LFEdges", "LFFile", "Abnormal", "Count")
 
 
-def observe(sc, root, binf, d, info, conv, w, do_recon=True, lf_numeric=False):
-    """projection of the files a finished run left on disk"""
+def observe(sc, root, binf, d, info, conv, w, do_recon=True, lf_numeric=False, rc_early=None):
+    """projection of the files a finished run left on disk. `d` is the original content; when only a part of it was converted
+    (init_params nsamples, NP2.1 offset) the clauses are judged against that part."""
     import spikeglx
-    import neuropixel
-    ns = sc["ns"]
+    off = int(sc.get("offset") or 0)
+    ns = int(sc.get("nsamples") or sc["ns"])
+    d = d[off:off + ns]
     nap = d.shape[1] - 1
     fin = {"ap_rows_ok": True, "ap_tokens_ok": True, "ap_bytes_ok": True, "ap_meta_ok": True, "recon_bytes_ok": True,
            "recon_meta_ok": True, "lf_rows": -1, "lf_sync_ok": True, "lf_meta_ok": True, "lf_interior_lsb": 0,
@@ -36,14 +46,25 @@ def observe(sc, root, binf, d, info, conv, w, do_recon=True, lf_numeric=False):
     shank_of = np.array([s[0] for s in info["sites"]])
     lf_rows = set()
     lf_data = {}
+    want = wanted_shanks(sc, info)
+    got = sorted(int(key[5:]) for key in conv.shank_info)
+    if want is not None and not set(want) <= set(got):
+        # a shank that had to be written has no file at all: its rows are missing
+        fin["ap_rows_ok"] = False
+        lf_rows.add(-3)
+        fin["detail"]["shanks"] = [want, got]
     for key, si in conv.shank_info.items():
         sh = int(key[5:])
-        chns = np.r_[np.flatnonzero(shank_of == sh), nap]
+        chns = np.arange(nap + 1) if sc.get("lf_whole") else np.r_[np.flatnonzero(shank_of == sh), nap]
         if "ap_file" in si:
             observe_ap(fin, si, sh, chns, ns, d)
         lff = Path(si["lf_file"])
-        b = np.fromfile(lff, dtype=np.int16)
-        if b.size % len(chns):
+        try:
+            b = n2.read_int16(lff)
+        except Exception as e:      # the file the run names as its output cannot be read at all
+            fin["detail"]["lf_read_exc"] = f"{lff.name}: {type(e).__name__}: {e}"[:160]
+            b = np.zeros(0, dtype=np.int16)
+        if b.size % len(chns) or not b.size:
             lf_rows.add(-2)
             continue
         b = b.reshape(-1, len(chns))
@@ -75,49 +96,113 @@ def observe(sc, root, binf, d, info, conv, w, do_recon=True, lf_numeric=False):
         fin["lf_interior_lsb"] = int(np.ceil(worst - 1e-6)) if worst > 0 else 0
     fin["_lf"] = {sh: v[0] for sh, v in lf_data.items()}
     if do_recon:
-        # NP2Reconstructor writes into <raw>/<pname>/ : move the original out of the way first
-        raw = Path(binf).parent.parent
-        orig = raw / "orig"
-        shutil.move(str(Path(binf).parent), str(orig))
-        # what the destination folder holds before the reconstruction: nothing; the metadata of another (shorter) recording
-        # under the output's name, with or without a longer binary; the original's own metadata (kept when the size matches)
-        dest = ["fresh", "stale_meta", "stale_both", "orig_meta"][int(sc.get("seed", 0) + sc["ns"]) % 4]
-        fin["detail"]["recon_dest"] = dest
-        if dest != "fresh":
-            pdir = raw / "probe00"
-            pdir.mkdir(parents=True, exist_ok=True)
-            mname = Path(binf).with_suffix(".meta").name
-            mtxt = (orig / mname).read_text()
-            if dest == "orig_meta":
-                (pdir / mname).write_text(mtxt)
-            else:
-                nbytes = (orig / Path(binf).name).stat().st_size
-                stale = mtxt.replace(f"fileSizeBytes={nbytes}", f"fileSizeBytes={nbytes // 2}") + "staleLeftover=1\n"
-                (pdir / mname).write_text(stale)
-                if dest == "stale_both":
-                    (pdir / Path(binf).name).write_bytes(b"\x5a" * (nbytes + 770))
-        try:
-            rc = neuropixel.NP2Reconstructor(raw, "probe00", compress=False)
-            st = rc.process()
-            rb = rc.save_file
-            if st != 1 or Path(rb).read_bytes() != (orig / Path(binf).name).read_bytes():
-                fin["recon_bytes_ok"] = False
-            m0 = spikeglx.read_meta_data(orig / Path(binf).with_suffix(".meta").name)
-            m1 = spikeglx.read_meta_data(Path(rb).with_suffix(".meta"))
-            diff = meta_diff(m0, m1)
-            if diff:
-                fin["recon_meta_ok"] = False
-                fin["detail"]["recon_meta"] = diff[:6]
-        except Exception as e:
-            fin["recon_bytes_ok"] = False
-            fin["detail"]["recon_exc"] = f"{type(e).__name__}: {e}"
+        reconstruct(sc, binf, d, fin, rc_early, info.get("meta_text"))
     return fin
+
+
+def wanted_shanks(sc, info):
+    """shank numbers the run has to write: all the shanks the site table uses, or the ones picked with init_params(nshank=...)"""
+    if sc.get("kind", "NP2.4") != "NP2.4" or sc.get("lf_whole"):
+        return None
+    present = sorted({int(s[0]) for s in info["sites"]})
+    pick = sc.get("nshank_pick")
+    return present if not pick else {"last": present[-1:], "first": present[:1], "ends": sorted({present[0], present[-1]})}[pick]
+
+
+def extra_files(stem, tag):
+    """names a shank folder of a real session may hold next to the AP / LF files; none of them is an AP binary or its metadata.
+    Which entry a directory listing yields first depends on the names, so some of them carry a per-scenario tag."""
+    return ["_spikeglx_sync.times.probe.npy", "_iblqc_ephysTimeRmsAP.rms.npy", "notes_ap.txt", f"{stem}.wiring.json",
+            f"{stem}.ap.meta.bak", f"{stem}.ap.meta.{tag}", f"{stem}.ap.bin.sha1", f"{stem}.ap.bin.{tag}", f"{stem}.ap.cbin.{tag}",
+            f"{stem}.ap.{tag}", f"{tag}_ap.bin.txt"]
+
+
+def reconstruct(sc, binf, d, fin, rc_early=None, ref_meta=None):
+    """NP2Reconstructor on the shank folders the conversion left; judged against the original content `d` (not against the
+    original file: a conversion must not have touched it, and it may have been handed in compressed)"""
+    import spikeglx
+    import neuropixel
+    binf = Path(binf)
+    label = binf.parent.name
+    raw = binf.parent.parent
+    pdir = raw / label
+    orig = raw / "orig"
+    bname = binf.with_suffix(".bin").name
+    mname = binf.with_suffix(".meta").name
+    # NP2Reconstructor writes into <raw>/<pname>/ : move the original out of the way first
+    if rc_early is None:
+        shutil.move(str(pdir), str(orig))
+    else:               # the reconstructor object exists already (it made sure the folder exists): only the files leave
+        orig.mkdir()
+        for f in list(pdir.iterdir()):
+            shutil.move(str(f), str(orig / f.name))
+    # what the destination folder holds before the reconstruction: nothing; the metadata of another (shorter) recording
+    # under the output's name, with or without a longer binary; the original's own metadata (kept when the size matches)
+    dest = ["fresh", "stale_meta", "stale_both", "orig_meta"][int(sc.get("seed", 0) + sc["ns"]) % 4]
+    fin["detail"]["recon_dest"] = dest
+    mtxt = (orig / mname).read_text()
+    nbytes = int(d.size) * 2
+    if dest != "fresh":
+        pdir.mkdir(parents=True, exist_ok=True)
+        if dest == "orig_meta":
+            (pdir / mname).write_text(mtxt)
+        else:
+            stale = mtxt.replace(f"fileSizeBytes={nbytes}", f"fileSizeBytes={nbytes // 2}") + "staleLeftover=1\n"
+            (pdir / mname).write_text(stale)
+            if dest == "stale_both":
+                (pdir / bname).write_bytes(b"\x5a" * (nbytes + 770))
+    folders = sorted(f for f in raw.glob(f"{label}*") if f != pdir and f.is_dir())
+    if sc.get("extras_in_shank"):
+        # files and a folder that a shank folder of a real session also holds next to the AP pair
+        for f in folders:
+            for nm in extra_files(bname[:-len(".ap.bin")], f"{int(sc.get('seed', 0)) % 65536:04x}{f.name[-1]}"):
+                (f / nm).write_bytes(b"not a recording\n")
+            (f / "ap_bin_backup").mkdir(exist_ok=True)
+    rcomp = bool(sc.get("recon_compress"))
+    mode = sc.get("recon_obj", "fresh")
+    fin["detail"]["recon_obj"] = [mode, rcomp]
+    try:
+        rc = rc_early if rc_early is not None else neuropixel.NP2Reconstructor(str(raw) if sc.get("path_type") == "str" else raw, label,
+                                                                              compress=rcomp)
+        if mode == "failed_then" and folders:
+            # a first attempt while one shank folder is not there (declines or raises), then the same object once it is back
+            hidden = raw / "away"
+            shutil.move(str(folders[-1]), str(hidden))
+            try:
+                st0 = rc.process()
+            except Exception as e:  # noqa
+                st0 = type(e).__name__
+            fin["detail"]["recon_first"] = str(st0)
+            shutil.move(str(hidden), str(folders[-1]))
+        st = rc.process()
+        if mode == "twice":
+            st = rc.process()
+        out = pdir / (Path(bname).with_suffix(".cbin").name if rcomp else bname)
+        if st != 1 or not out.exists() or n2.read_int16(out).tobytes() != np.ascontiguousarray(d).tobytes():
+            fin["recon_bytes_ok"] = False
+            fin["detail"]["recon_out"] = [str(st), out.name, out.exists()]
+        # the reference is the metadata text as synthesised, not what the folder of the original holds after the conversion
+        (orig / "_reference.meta").write_text(ref_meta if ref_meta is not None else mtxt)
+        m0 = spikeglx.read_meta_data(orig / "_reference.meta")
+        m1 = spikeglx.read_meta_data(out.with_suffix(".meta"))
+        # only a part of the recording was converted (init_params nsamples): the size field describes that part
+        diff = [x for x in meta_diff(m0, m1) if not (sc.get("nsamples") and x[0] == "fileSizeBytes" and m1.get("fileSizeBytes") == nbytes)]
+        if diff:
+            fin["recon_meta_ok"] = False
+            fin["detail"]["recon_meta"] = diff[:6]
+    except Exception as e:
+        fin["recon_bytes_ok"] = False
+        fin["detail"]["recon_exc"] = f"{type(e).__name__}: {e}"
 
 
 def observe_ap(fin, si, sh, chns, ns, d):
     import spikeglx
     apf = Path(si["ap_file"])
-    a = np.fromfile(apf, dtype=np.int16)
+    try:
+        a = n2.read_int16(apf)
+    except Exception as e:      # the file the run names as its output cannot be read at all
+        fin["detail"][f"ap_read_exc_{sh}"] = f"{apf.name}: {type(e).__name__}: {e}"[:160]
+        a = np.zeros(0, dtype=np.int16)
     if a.size % len(chns) or a.size // len(chns) != ns:
         fin["ap_rows_ok"] = False
         fin["detail"][f"ap_rows_{sh}"] = [int(a.size), len(chns), ns]
@@ -155,6 +240,91 @@ def meta_diff(m0, m1):
     return out
 
 
+VARIANT_KEYS = ("input", "w_type", "nsamples", "extra", "nshank_pick", "compress", "post_check", "recon_compress", "recon_obj", "extras_in_shank",
+                "sibling", "pre", "path_type", "offset", "lf_whole", "label")
+EMPTY_FINAL = {"ap_rows_ok": True, "ap_tokens_ok": True, "ap_bytes_ok": True, "ap_meta_ok": True, "recon_bytes_ok": True,
+               "recon_meta_ok": True, "lf_rows": -1, "lf_sync_ok": True, "lf_meta_ok": True, "lf_interior_lsb": 0,
+               "lf_window_lsb": 0, "detail": {}}
+
+
+def typed(x, how):
+    """the same number handed over as another numeric type (the repository's own tests pass nwindow=0.3 * 30000)"""
+    return {"float": float, "np32": np.int32, "np64": np.int64}.get(how, int)(x)
+
+
+def run_variant(sc, binf, d, info):
+    """a conversion that does not start from a clean slate and / or uses the options of the constructor and of init_params:
+    returns (status, events, conv, exc, rc_early)"""
+    import neuropixel
+    binf = Path(binf)
+    raw, label = binf.parent.parent, binf.parent.name
+    kind = sc.get("kind", "NP2.4")
+    extra = sc.get("extra") or ""
+    mtxt = binf.with_suffix(".meta").read_text()
+    frame = d.shape[1] * 2
+    if sc.get("sibling"):
+        # the split folders (and the folder) of another probe of the same session, holding a shorter recording
+        other = "probe01" if label != "probe01" else "probe00"
+        for nm in (other, other + "a", other + "b" + extra):
+            (raw / nm).mkdir()
+            (raw / nm / binf.name).write_bytes(d[:10].tobytes())
+            (raw / nm / binf.with_suffix(".meta").name).write_text(mtxt.replace(f"fileSizeBytes={d.shape[0] * frame}", f"fileSizeBytes={10 * frame}"))
+    apf = binf
+    if sc.get("input") == "cbin":          # the recording is handed in compressed (no .bin next to it); compressed with the library
+        import mtscomp
+        apf = binf.with_suffix(".cbin")
+        mtscomp.compress(binf, out=apf, outmeta=binf.with_suffix(".ch"), sample_rate=30000, n_channels=d.shape[1], dtype=np.int16)
+        binf.unlink()
+    if sc.get("pre"):
+        # leftovers of an earlier run on ANOTHER recording under every name this run writes: longer binaries, stale metadata
+        stale = mtxt + "staleLeftover=1\n"
+        junk = b"\x5a" * (d.shape[0] * frame + 770)
+        lfname = binf.name.replace("ap", "lf")
+        if kind == "NP2.4" and not sc.get("lf_whole"):
+            for sh in wanted_shanks(sc, info):
+                f = raw / (label + chr(97 + sh) + extra)
+                f.mkdir()
+                (f / binf.name).write_bytes(junk)
+                (f / lfname).write_bytes(junk[: len(junk) // 3])
+                (f / binf.with_suffix(".meta").name).write_text(stale)
+                (f / Path(lfname).with_suffix(".meta").name).write_text(stale)
+        else:
+            (binf.parent / lfname).write_bytes(junk[: len(junk) // 3])
+            (binf.parent / Path(lfname).with_suffix(".meta").name).write_text(stale)
+    rc_early = None
+    if sc.get("recon_obj") == "early":     # constructed before there is anything to reconstruct, used afterwards
+        try:
+            rc_early = neuropixel.NP2Reconstructor(raw, label, compress=bool(sc.get("recon_compress")))
+        except Exception as e:  # noqa
+            return None, [], None, f"NP2Reconstructor(): {type(e).__name__}: {e}", None
+    wt = sc.get("w_type", "int")
+    init = {}
+    if wt != "default":
+        init["nwindow"] = typed(sc["w"], wt)
+    if sc.get("nsamples"):
+        init["nsamples"] = typed(sc["nsamples"], "float" if wt == "float" else "np64" if wt == "np64" else "int")
+    if extra:
+        init["extra"] = extra
+    if sc.get("nshank_pick"):
+        init["nshank"] = wanted_shanks(sc, info)
+    if wt == "default" and not init:
+        init = None
+    np21 = None
+    if sc.get("offset") or sc.get("lf_whole"):
+        np21 = {}
+        if sc.get("offset"):
+            np21["offset"] = int(sc["offset"])
+        if sc.get("lf_whole"):
+            np21["assert_shanks"] = False
+    # the run's own verification (the constructor's default) compares ALL columns: not when only some of the shanks are written
+    pchk = bool(sc.get("post_check")) and (not sc.get("nshank_pick") or wanted_shanks(sc, info) == wanted_shanks(dict(sc, nshank_pick=None), info))
+    status, events, conv, exc, first = n2.convert_opts(str(apf) if sc.get("path_type") == "str" else apf, init, compress=bool(sc.get("compress")),
+                                                       post_check=pchk, overwrite=bool(sc.get("pre")), decline_first=sc.get("pre") == "decline_force", np21=np21)
+    if sc.get("pre") == "decline_force" and first != 0 and not exc:
+        exc = f"process() returned {first} although every output folder existed"
+    return status, events, conv, exc, rc_early
+
+
 def one_run(ctx, sc, idx, keep_lf=False):
     rng = np.random.default_rng(sc["seed"])
     root = Path(ctx.scratch) / f"np2_{idx}"
@@ -162,24 +332,33 @@ def one_run(ctx, sc, idx, keep_lf=False):
     kind = sc.get("kind", "NP2.4")
     sites = n2.shank_map(sc["map"], sc["n"], rng, sc["nshank"]) if kind == "NP2.4" else None
     binf, d, info = n2.make_recording(root, sc["ns"], rng, kind=kind, n=sc["n"], sites=sites, gainset=tuple(sc["gain"]),
-                                      content=sc.get("content", "random"))
-    if sc.get("reuse_first_w"):
+                                      content=sc.get("content", "random"), label=sc.get("label", "probe00"),
+                                      encoding=sc.get("encoding"), ptype=sc.get("ptype"))
+    info["meta_text"] = Path(binf).with_suffix(".meta").read_text()
+    rc_early = None
+    if any(sc.get(k) for k in VARIANT_KEYS):
+        status, events, conv, exc, rc_early = run_variant(sc, binf, d, info)
+    elif sc.get("reuse_first_w"):
         status, events, conv, exc = n2.convert_reuse(binf, sc["reuse_first_w"], sc["w"])
     else:
         status, events, conv, exc = n2.convert(binf, sc["w"])
-    tr = {"ns": sc["ns"], "w": sc["w"], "status": status if status is not None else -9, "exc": exc[:120],
+    if status == "skipped":     # the scenario needs a private entry point that this code does not have (reported as drift)
+        n2.rm(root)
+        return None
+    tr = {"ns": int(sc.get("nsamples") or sc["ns"]), "w": sc["w"], "status": status if status is not None else -9, "exc": exc[:120],
           "wins": n2.window_events(events, lambda e: e["first"]), "final": None}
     if status == 1 and not exc:
-        fin = observe(sc, root, binf, d, info, conv, sc["w"], do_recon=sc.get("recon", True) and kind == "NP2.4",
-                      lf_numeric=sc.get("lf_numeric", False))
+        whole = not sc.get("nshank_pick") or wanted_shanks(sc, info) == wanted_shanks(dict(sc, nshank_pick=None), info)
+        fin = observe(sc, root, binf, d, info, conv, sc["w"], do_recon=sc.get("recon", True) and kind == "NP2.4" and whole
+                      and not sc.get("lf_whole"), lf_numeric=sc.get("lf_numeric", False), rc_early=rc_early)
         lf = fin.pop("_lf")
         tr["final"] = fin
         if keep_lf:
             tr["_lf"] = lf
     else:
-        tr["final"] = {"ap_rows_ok": True, "ap_tokens_ok": True, "ap_bytes_ok": True, "ap_meta_ok": True, "recon_bytes_ok": True,
-                       "recon_meta_ok": True, "lf_rows": -1, "lf_sync_ok": True, "lf_meta_ok": True, "lf_interior_lsb": 0,
-                       "lf_window_lsb": 0, "detail": {}}
+        if exc and status == 1:
+            tr["status"] = -8
+        tr["final"] = copy.deepcopy(EMPTY_FINAL)
     n2.rm(root)
     return tr
 
@@ -228,14 +407,74 @@ def scenarios(ctx):
                     "seed": seed + k})
     # the same converter object re-parameterised and re-run with overwrite (process(overwrite) is a method argument)
     reuse = [dict(s, reuse_first_w=[2400, 3612, 1200][i % 3], seed=s["seed"] + 50000) for i, s in enumerate(scs[:: max(1, len(scs) // 6)][:6])]
-    return scs + big + reuse
+    return scs + big + reuse + variants(ctx, seed + 70000)
+
+
+# options of the constructor / of init_params / of the reconstructor, forms of the input, and what a run can find on disk
+FEATURES = [("input", "cbin"), ("encoding", "geom"), ("ptype", 2013), ("w_type", "float"), ("w_type", "np32"), ("w_type", "np64"),
+            ("w_type", "default"), ("nsamples", True), ("extra", "_x1"), ("nshank_pick", "last"), ("nshank_pick", "ends"),
+            ("compress", True), ("post_check", True), ("recon_compress", True), ("recon_obj", "early"), ("recon_obj", "twice"), ("recon_obj", "failed_then"),
+            ("extras_in_shank", True), ("sibling", True), ("pre", "stale_force"), ("pre", "decline_force"), ("label", "probe01"),
+            ("path_type", "str"), ("map", "only"), ("w", 588), ("w", 600), ("w", 1152)]
+
+
+def variants(ctx, seed):
+    """one scenario per feature value (quick) / six per value with other bases (thorough); every other feature is switched on
+    with probability 1/4, so that the options also meet each other"""
+    rng = np.random.default_rng(seed)
+    maps = ["blocks", "interleaved", "random", "singleton", "noshank0", "gap", "only"]
+    out = []
+    for rnd in range(1 if ctx.quick else 6):
+        for i, (name, val) in enumerate(FEATURES):
+            k = rnd * len(FEATURES) + i
+            sc = {"n": 8, "nshank": 2 + int(rng.integers(0, 3)), "map": maps[int(rng.integers(0, len(maps)))],
+                  "gain": list(n2.GAINSETS[int(rng.integers(0, 4))]), "w": [1200, 2400, 3612][int(rng.integers(0, 3))],
+                  "ns": [1825, 2999, 3613, 4037, 5000, 7229][int(rng.integers(0, 6))], "seed": seed + k}
+            opts = {name: val}
+            for n2_, v2 in FEATURES:
+                # (the window of stride 12 makes hundreds of windows: only where it is the scenario's own feature)
+                if n2_ not in opts and v2 != 588 and rng.random() < 0.25 / sum(1 for a, _ in FEATURES if a == n2_):
+                    opts[n2_] = v2
+            if "w" in opts and opts.get("w_type") == "default":
+                opts.pop("w" if name != "w" else "w_type")
+            if opts.get("w_type") == "default":
+                opts["w"] = 60000
+            if opts.get("w", 9999) <= 600:
+                sc["ns"] = min(sc["ns"], 1825 if ctx.quick else 2999)   # keep the number of windows (states of the trace) moderate
+            if opts.pop("nsamples", None):
+                opts["nsamples"] = int(sc["ns"] * 0.62) | 1      # odd: never a multiple of 12
+            if name == "compress" or (opts.get("compress") and k % 3 == 0 and name not in ("w", "nsamples")):
+                sc["ns"] = 61234 + k                    # several compression chunks per shank file (1 s = 30000 AP / 2500 LF rows)
+                opts.pop("nsamples", None)
+                if opts.get("w", sc["w"]) < 20000:
+                    opts["w"] = 23988
+            sc.update(opts)
+            if sc["map"] == "only":
+                sc["nshank"] = 1
+            out.append(sc)
+    # all 65536 values (quick: 32 channels, thorough: full size): compressed input, the constructor's defaults (verification,
+    # compressed shank files), compressed reconstruction, geometry map, probe type 2013
+    for j in range(1 if ctx.quick else 3):
+        out.append({"n": 32 if ctx.quick else 384, "nshank": 4, "map": ["random" if ctx.quick else "dense4", "random", "noshank0"][j],
+                    "gain": list(n2.GAINSETS[(j + 1) % 4]), "w": [2400, 3612, 1200][j], "ns": [3613, 4037, 2999][j], "seed": seed + 900 + j, "input": "cbin", "compress": True, "post_check": True,
+                    "recon_compress": True, "encoding": "geom", "ptype": 2013, "w_type": ["float", "np64", "int"][j],
+                    "extras_in_shank": True, "sibling": j != 1})
+    return out
+
+
+def quiet():
+    import logging
+    import mtscomp
+    logging.getLogger("ibllib").setLevel(logging.CRITICAL)
+    logging.getLogger("mtscomp").setLevel(logging.ERROR)
+    mtscomp.tqdm = lambda it=None, **k: it          # progress bars off (cosmetic)
 
 
 def run(ctx, clauses=C03_CLAUSES, pid="C03", extra_scenarios=None, post=None):
-    import logging
-    logging.getLogger("ibllib").setLevel(logging.CRITICAL)
+    quiet()
     ctx.level = "model_checking"
-    for cfg in (["mc/NP2Split_quick.cfg", "mc/NP2Split_real.cfg"] if ctx.quick else ["mc/NP2Split_thorough.cfg", "mc/NP2Split_real.cfg"]):
+    for cfg in (["mc/NP2Split_quick.cfg", "mc/NP2Split_real.cfg"] if ctx.quick else
+                ["mc/NP2Split_thorough.cfg", "mc/NP2Split_real.cfg", "mc/NP2Split_realsmall.cfg"]):
         r = tlc.run("mc/MC_NP2Split.tla", cfg, workers=4, timeout=1800, coverage=True)
         ctx.tlc(r, cfg)
         if r.ok:
@@ -261,12 +500,13 @@ def run(ctx, clauses=C03_CLAUSES, pid="C03", extra_scenarios=None, post=None):
         replay_shankcols(ctx, json.loads(out.read_text()))
     scs = scenarios(ctx) if extra_scenarios is None else extra_scenarios(ctx)
     traces = [one_run(ctx, sc, i, keep_lf=post is not None) for i, sc in enumerate(scs)]
+    scs, traces = [sc for sc, t in zip(scs, traces) if t is not None], [t for t in traces if t is not None]   # None: see run_variant
     if post:
         post(ctx, scs, traces)
     for t in traces:
         t.pop("_lf", None)
     for sc, t in zip(scs, traces):
-        ctx.count(1, key=(sc["n"], sc["map"], tuple(sc["gain"]), sc["w"], sc["ns"], sc["nshank"]))
+        ctx.count(1, key=(sc["n"], sc["map"], tuple(sc["gain"]), sc["w"], sc["ns"], sc["nshank"]) + variant_sig(sc))
     verdicts = validate(ctx, traces, "np2split")
     report(ctx, scs, traces, verdicts, clauses, pid)
     report_unbound(ctx)
@@ -279,6 +519,10 @@ def run(ctx, clauses=C03_CLAUSES, pid="C03", extra_scenarios=None, post=None):
                        "volume + 384-channel runs with all 65536 values); distinct = distinct (channels, map, gain, window, length)")
     ctx.assumptions += ["tokens are read off the sync column (sample counter, lengths < 32000)",
                         "a file is 'equal' iff byte-identical to the expected columns of the synthesised original"]
+
+
+def variant_sig(sc):
+    return tuple((k, str(sc[k])) for k in VARIANT_KEYS + ("encoding", "ptype", "kind") if sc.get(k))
 
 
 def replay_shankcols(ctx, cases):
@@ -326,7 +570,8 @@ def report(ctx, scs, traces, verdicts, clauses, pid):
     for v in verdicts:
         sc, t = scs[v["index"]], traces[v["index"]]
         desc = f"n={sc['n']} map={sc['map']}/{sc['nshank']} gain={sc['gain']} w={sc['w']} ns={sc['ns']}" + (
-            f" (same converter object, after a first process() with nwindow={sc['reuse_first_w']})" if sc.get("reuse_first_w") else "")
+            f" (same converter object, after a first process() with nwindow={sc['reuse_first_w']})" if sc.get("reuse_first_w") else "") + (
+            " " + " ".join(f"{k}={v}" for k, v in variant_sig(sc)) if variant_sig(sc) else "")
         mine = [c for c in v["prop"].split("|") if c and c.split(":")[0] in clauses
                 and not (sc.get("kind") == "NP2.1" and c.split(":")[0] in ("APPrefix", "APComplete", "APFile"))]
         if mine:
@@ -375,6 +620,10 @@ def selftest(ctx, traces, bad, clauses):
 
 
 def replay(ctx, sc, clauses=C03_CLAUSES, pid="C03"):
+    quiet()
     s = sc["scenario"]
     t = one_run(ctx, s, 0)
+    if t is None:
+        report_unbound(ctx)
+        return
     report(ctx, [s], [t], validate(ctx, [t], "replay"), clauses, pid)
